@@ -11,7 +11,7 @@ import (
 func TestSimplifierSound(t *testing.T) {
 	rng := rand.New(rand.NewSource(1))
 	widths := []uint8{1, 3, 8, 9, 16, 32, 64}
-	for iter := 0; iter < 20000; iter++ {
+	for iter := 0; iter < 60000; iter++ {
 		ts := NewTermStore()
 		nv := 3
 		model := make([]uint64, nv)
@@ -35,8 +35,13 @@ func TestSimplifierSound(t *testing.T) {
 		for i := 0; i < 4; i++ {
 			w := widths[rng.Intn(len(widths))]
 			c := rng.Uint64() & mask(w)
-			if rng.Intn(2) == 0 {
+			switch rng.Intn(4) {
+			case 0:
 				c = uint64(rng.Intn(4)) & mask(w)
+			case 1:
+				c = (uint64(1) << uint(rng.Intn(int(w)))) & mask(w)
+			case 2:
+				c = (^uint64(0) << uint(rng.Intn(int(w)))) & mask(w)
 			}
 			pool = append(pool, tv{ts.Const(w, c), c})
 		}
@@ -61,7 +66,7 @@ func TestSimplifierSound(t *testing.T) {
 				if !ok {
 					continue
 				}
-				ops := []Op{OAdd, OSub, OMul, OAnd, OOr, OXor, OShl, OLShr, OAShr, OUDiv, OURem, OSDiv, OSRem}
+				ops := []Op{OAdd, OAdd, OSub, OMul, OAnd, OAnd, OOr, OOr, OOr, OXor, OShl, OShl, OLShr, OAShr, OUDiv, OURem, OSDiv, OSRem}
 				op := ops[rng.Intn(len(ops))]
 				if (op == OUDiv || op == OURem || op == OSDiv || op == OSRem) && b.v == 0 {
 					continue
@@ -142,6 +147,9 @@ func TestSimplifierSound(t *testing.T) {
 			got := p.t.Eval(model, memo)
 			if got != p.v {
 				t.Fatalf("iter %d: term %s evaluates to %#x, expected %#x (model %v)", iter, p.t, got, p.v, model)
+			}
+			if p.t.w > 0 && p.t.tz > 0 && p.v&mask(p.t.tz) != 0 {
+				t.Fatalf("iter %d: term %s claims %d low zero bits but value %#x", iter, p.t, p.t.tz, p.v)
 			}
 			if p.t.w > 0 && p.t.ew < 64 && p.v>>p.t.ew != 0 {
 				t.Fatalf("iter %d: term %s has effective width %d but value %#x", iter, p.t, p.t.ew, p.v)
